@@ -317,7 +317,8 @@ static Plan plan_C12(Rng& r, const std::string&) {
 			else if (x < 55) g.push(mk(c, "et_observe", {g.any(), long(r.below(100000))}));
 			else if (x < 67) { g.push(mk(c, "it_begin", {g.any(), long(r.below(3)), long(r.below(50)), long(r.below(1000))})); ++iters; }
 			else if (x < 85 && iters) g.push(mk(c, "it_next", {long(r.below(8)), long(r.range(1, 4))}));
-			else if (x < 88 && iters) { g.push(mk(c, "it_drop", {long(r.below(8))})); --iters; }
+			else if (x < 87 && iters) { g.push(mk(c, "it_drop", {long(r.below(8))})); --iters; }
+			else if (x < 89 && iters) { g.push(mk(c, "it_copy", {long(r.below(8))})); ++iters; }
 			else if (x < 95) g.value_ops(1);          // sharing copies, mutated by this or (after give) other clients between two increments
 			else if (ncl > 1) g.push(mk(c, "et_give", {g.any(), long(r.below(uint64_t(ncl)))}));
 		}
